@@ -18,7 +18,7 @@
      claimed less than a minute ago are never reclaimed (EmptyBlockMinReclaimAge). *)
 From Coq Require Import List NArith Bool Arith.
 From Verif.Common Require Import Cas.
-From Verif.C19 Require Import Model.
+From Verif.C19 Require Import Model ModelV.
 Import ListNotations.
 Open Scope N_scope.
 
@@ -60,7 +60,11 @@ Record config := {
   g_autoalloc : bool;            (* IPAMConfig.AutoAllocateBlocks *)
   g_maxblocks : nat;             (* IPAMConfig.MaxBlocksPerHost, 0 = unset *)
   g_retries : nat;               (* datastoreRetries *)
-  g_nodes : list (N * labels)    (* node -> labels *)
+  g_nodes : list (N * labels);   (* node -> labels *)
+  g_fx : bool;                   (* variant probed by the driver: claimAffineBlock writes an already owned block back before
+                                    confirming the affinity (fixes/C22-claim-existing-block-bumps-revision.patch) *)
+  g_capfix : bool                (* variant probed by the driver: the block limit counts every block affine to the host
+                                    (fixes/C20-count-all-affine-blocks.patch) instead of those in the usable pools only *)
 }.
 
 Definition p_size (p : pool) : N := N.of_nat (p_nblocks p * p_bsize p).
@@ -232,7 +236,7 @@ Section Ops.
       match r with
       | inr _ => Ret None
       | inl aff =>
-          g <- get_block_from_aff (c19cfg cf bsize) host c aff ;;
+          g <- get_block_from_aff_v (c19cfg cf bsize) (g_fx cf) host c aff ;;
           match g with
           | inr EConflict => try_affine f host c bsize
           | inr _ => Ret None
@@ -297,7 +301,7 @@ Section Ops.
       | inr EConflict => claim_inner f host c bsize
       | inr e => Ret (CRErr e)
       | inl aff =>
-          g <- get_block_from_aff (c19cfg cf bsize) host c aff ;;
+          g <- get_block_from_aff_v (c19cfg cf bsize) (g_fx cf) host c aff ;;
           match g with
           | inr EConflict => claim_inner f host c bsize
           | inr EClaimConflict => Ret CRAgain
@@ -411,24 +415,26 @@ Section Ops.
     end.
 
   (* prepareAffinityBlocksForHost: release empty blocks in enabled pools that do not select the node *)
-  Fixpoint release_stale (fuel : nat) (host c : N) : prog unit :=
+  (* result: was the affinity released by this call? *)
+  Fixpoint release_stale (fuel : nat) (host c : N) : prog bool :=
     match fuel with
-    | O => Ret tt
+    | O => Ret false
     | S f =>
       r <- release_block_affinity host c true ;;
       match r with
-      | inl _ => Ret tt
-      | inr EClaimConflict => Ret tt
-      | inr ENotEmpty => Ret tt
-      | inr ENotFound => Ret tt
+      | inl _ => Ret true
+      | inr EClaimConflict => Ret false
+      | inr ENotEmpty => Ret false
+      | inr ENotFound => Ret false
       | inr _ => release_stale f host c
       end
     end.
 
-  Fixpoint release_all (cs : list N) (host : N) : prog unit :=
+  (* number of affinities released *)
+  Fixpoint release_all (cs : list N) (host : N) : prog nat :=
     match cs with
-    | [] => Ret tt
-    | c :: t => u_ <- release_stale R host c ;; release_all t host
+    | [] => Ret O
+    | c :: t => d <- release_stale R host c ;; n <- release_all t host ;; Ret (if d then S n else n)
     end.
 
   Fixpoint with_bsize (ps : list pool) (cs : list N) : list (N * nat) :=
@@ -462,8 +468,11 @@ Section Ops.
               let stale := filter (fun c => match find_pool (enabled_pools cf) c with
                                             | Some p => negb (selects_node cf q p)
                                             | None => false end) to_release in
-              u_ <- release_all stale host ;;
-              aa_loop (S (S (length affs + total_blocks allowed))) [] (with_bsize allowed affs) (length affs)
+              released <- release_all stale host ;;
+              (* numBlocksOwned: the host's affine blocks inside the usable pools (pinned code), or every block that
+                 stays affine to the host (fixes/C20-count-all-affine-blocks.patch) *)
+              let owned := if g_capfix cf then (length all - released)%nat else length affs in
+              aa_loop (S (S (length affs + total_blocks allowed))) [] (with_bsize allowed affs) owned
                       (eff_maxblocks cf q) (q_num q) (q_handle q) (q_tag q) host (q_node q) allowed
           | _ => Ret (RIPs [] EOther)
           end)
